@@ -10,7 +10,7 @@ accepted by this module.
 import html
 import os
 import xml.etree.ElementTree as ET
-from typing import Collection, Dict, Optional, Iterator, Sequence, Union
+from typing import Collection, Dict, Iterable, Optional, Iterator, Sequence, Union
 
 from .bounds import Range
 from .edits import AbstractCompoundEdit, Insert, Match, Remove
@@ -191,6 +191,20 @@ class XMLElement(ContainerNode):
         self._children: XMLElementChildren = XMLElementChildren(children)
         if isinstance(self, EditedTreeNode):
             self._children = self._children.make_edited()
+
+    def copy_from(self, children: Iterable[TreeNode]) -> 'XMLElement':
+        # `children` are copies of self.children(): the tag, the attributes, optionally the text, and the child list
+        children = list(children)
+        ret = XMLElement(
+            tag=children[0],
+            text=children[2] if self.text is not None else None,
+            allow_key_edits=isinstance(self.attrib, DictNode),
+            auto_match_keys=getattr(self.attrib, 'auto_match_keys', True)
+        )
+        ret.attrib, ret._children = children[1], children[-1]
+        ret.attrib.parent = ret
+        ret._children.parent = ret
+        return ret
 
     def to_obj(self):
         if self.text is None:
@@ -456,15 +470,22 @@ class HTML(XML):
 
 # Tell JSON how to format XML:
 def _json_print_XMLElement(self: JSONFormatter, printer: Printer, node: XMLElement):
-    kvps = [
-        KeyValuePairNode(StringNode('tag'), node.tag),
-    ]
+    members = [('tag', node.tag)]
     if len(node.attrib) > 0:
-        kvps.append(KeyValuePairNode(StringNode('attrs'), node.attrib))
+        members.append(('attrs', node.attrib))
     if node.text is not None:
-        kvps.append(KeyValuePairNode(StringNode('text'), node.text))
-    kvps.append(KeyValuePairNode(StringNode('children'), node._children))
-    self.print(printer, DictNode(kvps))
+        members.append(('text', node.text))
+    members.append(('children', node._children))
+    # The members already have `node` as their parent, so they cannot be adopted by the temporary key/value pairs
+    # that are used to print them; detach them while printing:
+    parents_before = [member.parent for _, member in members]
+    try:
+        for _, member in members:
+            member._parent = None
+        self.print(printer, DictNode([KeyValuePairNode(StringNode(name), member) for name, member in members]))
+    finally:
+        for (_, member), parent_before in zip(members, parents_before):
+            member._parent = parent_before
 
 
 setattr(JSONFormatter, "print_XMLElement", _json_print_XMLElement)
